@@ -188,6 +188,47 @@ Theorem c05_unignored_file_reported :
 Proof. exact unignored_file_reported. Qed.
 Print Assumptions c05_unignored_file_reported.
 
+(* ---- 7. language server: ignoreURI (workspace path, one file) and getFilteredModules (workspace
+        URI, all modules) decide the same for every .rego file below the workspace root *)
+
+Theorem c05_lsp_call_sites_agree :
+  forall ok m (rootp r : str) (ignore uris kept : list str),
+    let root_uri := file_scheme ++ rootp in
+    let u := file_scheme ++ rootp ++ [SLASH] ++ r in
+    rootp <> [] -> has_suffix rootp [SLASH] = false ->
+    has_suffix u dot_rego = true ->
+    (forall p, In p ignore -> p <> [] -> compiles ok p = true) ->
+    is_stdin uris = false ->
+    lsp_filtered_modules ok m root_uri ignore uris = Some kept ->
+    In u uris ->
+    (lsp_ignore_uri ok m root_uri ignore u = true <-> ~ In u kept).
+Proof. exact lsp_call_sites_agree. Qed.
+Print Assumptions c05_lsp_call_sites_agree.
+
+(* ---- 8. how the CLI spells the file (open finding: relative argument, other working directory) *)
+
+Theorem c05_spelling_abs :
+  forall d r : str, has_suffix d [SLASH] = false -> go_rel (d ++ [SLASH] ++ r) d = r.
+Proof. exact spelling_abs. Qed.
+Print Assumptions c05_spelling_abs.
+
+Theorem c05_spelling_relative_at_root :
+  forall d r : str, has_prefix r (go_norm_prefix d) = false -> go_rel r d = r.
+Proof. exact spelling_relative_at_root. Qed.
+Print Assumptions c05_spelling_relative_at_root.
+
+Theorem c05_spelling_relative_elsewhere_refuted :
+  (* file d/sub/r' named r' from the working directory d/sub: dropped by a pattern its
+     root-relative path does not match *)
+  exists (d sub r' p : str),
+    let truerel := sub ++ [SLASH] ++ r' in
+    let lit := fun e f : str => str_eqb e f in
+    go_rel r' d = r' /\ r' <> truerel /\
+    matches (fun _ => true) lit p truerel = false /\
+    go_filter_ignored_paths (fun _ => true) lit [r'] [p] d = Some [].
+Proof. exact spelling_relative_elsewhere_refuted. Qed.
+Print Assumptions c05_spelling_relative_elsewhere_refuted.
+
 (* ---- non-vacuity: concrete values satisfying the hypotheses (literal engine: a pattern
         matches exactly the name equal to it) *)
 
@@ -224,3 +265,11 @@ Example ex_lint :
   /\ lint_hits lit_ok lit_match (fun _ _ => true) li KBuiltin = Some [[98]; [99]]
   /\ lint_hits lit_ok lit_match (fun _ _ => true) li KCustomAgg = Some [[99]].
 Proof. repeat split; reflexivity. Qed.
+
+(* root file:///w, module file:///w/a.rego, ignore ["a.rego"]: both call sites drop it *)
+Example ex_lsp :
+  let root := file_scheme ++ [SLASH; 119] in
+  let u := root ++ [SLASH; 97] ++ dot_rego in
+  lsp_ignore_uri lit_ok lit_match root [[97] ++ dot_rego] u = true
+  /\ lsp_filtered_modules lit_ok lit_match root [[97] ++ dot_rego] [u] = Some [].
+Proof. split; reflexivity. Qed.
